@@ -142,7 +142,11 @@ def rule_escape(ctx):
                 continue
             n_sites += 1
             par = getattr(n, "_parent", None)
-            if isinstance(par, ast.Expr):
+            top = par
+            while isinstance(top, (ast.Tuple, ast.List, ast.Set, ast.Starred, ast.IfExp, ast.BoolOp)):
+                top = getattr(top, "_parent", None)
+            if isinstance(top, ast.Expr):
+                # an expression statement that merely mentions the new object (directly or inside a display): nothing keeps it
                 ctx.check(False, "F7b", f"{f.qname}:{norm(n)[:40]}", func=f, node=n, construct=f"object-dropped:{r[1].name}",
                           msg=f"`{norm(n)[:60]}` constructs a {r[1].name} and drops it")
                 continue
